@@ -57,12 +57,13 @@ func (a *Application) proxyHandler(w http.ResponseWriter, r *http.Request) {
 	// so its StripPrefix is a no-op. This mirrors providerProxyHandler (line 100).
 	r.URL.Path = pr.targetPath
 
-	err = a.executeProxyRequest(ctx, w, r, endpoints, pr)
+	tracked := &startTrackingWriter{ResponseWriter: w}
+	err = a.executeProxyRequest(ctx, tracked, r, endpoints, pr)
 
 	a.logRequestResult(pr, err)
 
 	if err != nil {
-		a.handleProxyError(w, err)
+		a.handleProxyError(tracked, err)
 	}
 }
 
@@ -340,13 +341,44 @@ func (a *Application) handleEndpointError(w http.ResponseWriter, pr *proxyReques
 }
 
 // only send error response if we haven't started streaming yet.
-// content-type check prevents double-writing response after partial stream
 // (learned this the hard way when users got html error messages appended to their json)
+// A response that has started is recognised by what was written, not by its Content-Type:
+// a backend may well answer without one.
 func (a *Application) handleProxyError(w http.ResponseWriter, err error) {
-	if w.Header().Get(constants.HeaderContentType) == "" {
-		http.Error(w, fmt.Sprintf("Proxy error: %v", err), http.StatusBadGateway)
+	if tracker, ok := w.(*startTrackingWriter); ok {
+		if tracker.started {
+			return
+		}
+	} else if w.Header().Get(constants.HeaderContentType) != "" {
+		return
+	}
+	http.Error(w, fmt.Sprintf("Proxy error: %v", err), http.StatusBadGateway)
+}
+
+// startTrackingWriter remembers whether any part of a response has been handed to the client.
+type startTrackingWriter struct {
+	http.ResponseWriter
+	started bool
+}
+
+func (s *startTrackingWriter) WriteHeader(code int) {
+	s.started = true
+	s.ResponseWriter.WriteHeader(code)
+}
+
+func (s *startTrackingWriter) Write(b []byte) (int, error) {
+	s.started = true
+	return s.ResponseWriter.Write(b)
+}
+
+func (s *startTrackingWriter) Flush() {
+	if f, ok := s.ResponseWriter.(http.Flusher); ok {
+		f.Flush()
 	}
 }
+
+// Unwrap lets http.ResponseController reach the connection underneath.
+func (s *startTrackingWriter) Unwrap() http.ResponseWriter { return s.ResponseWriter }
 
 func (a *Application) stripRoutePrefix(ctx context.Context, path string) string {
 	return util.StripRoutePrefix(ctx, path, constants.ContextRoutePrefixKey)
